@@ -1,5 +1,5 @@
 //! unit: u03
-//! properties: C03
+//! properties: C03 C12
 //! note: PendingOutboundPayment state machine on the real 8-variant enum: terminal states are never contradicted, nothing is lost in a transition, completion tracking is exact
 //! trusted: axiom_u8_32_key_model: [u8;32] hashes and compares lawfully (vstd obeys_key_model); new_hash_set() is an external_body wrapper for LDK's hash_tables::new_hash_set (returns an empty set); foreign payload types (StaleExpiration, Retry, RouteParametersConfig, RetryableInvoiceRequest, RouteParameters, InvoiceRequest, StaticInvoice, PaymentAttempts, PaymentParameters, PaidBolt12Invoice, Duration) are opaque external_body structs; Path is a stub {v, f} whose final_value_msat()/fee_msat() are external_body pure accessors
 //! trusted: rule R7 splits or-pattern match arms into one arm per alternative
@@ -14,6 +14,7 @@
 //! assume: fail_htlc: a failure attributed to a blinded path carries no short_channel_id and the failed path has a blinded tail (debug_asserts on decode_onion_failure's result)
 //! assume: callers keep the representation invariant pending_amt_msat >= value of every in-flight path (and pending_fee_msat >= its fee); remove()/insert() are not called on pre-HTLC states (LDK's debug_assert!(false) arms)
 //! trusted: assume_specification for core::cmp::max / core::cmp::min (std definitions): present in every unit so that a change that introduces them is verified instead of being rejected by the tool
+//! trusted: R15 (deep slices): ChannelManager::write: the body of the loop that sums num_pending_outbounds_compat and the match of the loop that writes the session keys, verbatim as functions of one pending outbound payment (the real enum and its proved accessors); R6: `for k in SET.iter() { k.write(w)?; }` is the wrapper write_each_session_priv (one record per element); the writer counts records in a ghost field
 use vstd::prelude::*;
 use std::collections::HashSet;
 verus! {
@@ -602,6 +603,47 @@ pub proof fn lemma_sent_nonneg(rs: Seq<Result<(), APIError>>, ps: Seq<Path>)
 //@ret r
 //@ensures P C03 a-retry-asks-only-for-the-part-of-the-amount-that-is-not-already-in-flight
     r as int == (if route_params.final_value_msat >= total_ok_amt_sent_msat { route_params.final_value_msat - total_ok_amt_sent_msat } else { 0 }),
+//@end
+
+// ---- ChannelManager::write, the backwards-compatible list of session keys: the count written in front is the number of keys written ----
+pub struct CountWriter { pub n: Ghost<int> }
+pub struct IoError {}
+// R6: `for session_priv in S.iter() { session_priv.write(writer)?; }` over a set: one record per element
+#[verifier::external_body] pub fn write_each_session_priv(session_privs: &HashSet<[u8; 32]>, writer: &mut CountWriter) -> (r: Result<(), IoError>)
+    ensures r is Ok ==> final(writer).n@ == old(writer).n@ + session_privs@.len() { unimplemented!() }
+pub open spec fn session_privs_listed(o: PendingOutboundPayment) -> int { if o is Legacy || o is Retryable { o.privs().len() as int } else { 0 } }
+//@extract lightning/src/ln/channelmanager.rs :: impl Writeable for ChannelManager :: fn write
+//@slice R15
+    let mut num_pending_outbounds_compat: u64 = 0; for (_, outbound) in pending_outbound_payments.iter() { $count:any } num_pending_outbounds_compat.write(writer)?;
+//@with
+    fn session_privs_announced_for(outbound: &PendingOutboundPayment, so_far: u64) -> u64 { let mut num_pending_outbounds_compat: u64 = so_far; $count num_pending_outbounds_compat }
+//@ret r
+//@requires
+    so_far + outbound.privs().len() <= u64::MAX,
+//@ensures P C12,C03 the-number-of-session-keys-announced-for-a-payment-is-the-number-written-for-it
+    r as int == so_far + session_privs_listed(*outbound),
+//@mutant keys_of_abandoned_payments_announced_but_never_written
+    if !outbound.is_fulfilled() && !outbound.abandoned() {
+//@with
+    if !outbound.is_fulfilled() {
+//@end
+//@extract lightning/src/ln/channelmanager.rs :: impl Writeable for ChannelManager :: fn write
+//@slice R15
+    num_pending_outbounds_compat.write(writer)?; for (_, outbound) in pending_outbound_payments.iter() { match outbound { $arms:any } }
+//@with
+    fn session_privs_written_for(outbound: &PendingOutboundPayment, writer: &mut CountWriter) -> Result<(), IoError> { match outbound { $arms } Ok(()) }
+//@r7
+//@rw R6 *
+    for session_priv in session_privs.iter() { session_priv.write(writer)?; }
+//@with
+    write_each_session_priv(session_privs, writer)?;
+//@ret r
+//@ensures P C12,C03 the-session-keys-written-for-a-payment-are-the-ones-of-a-payment-still-in-flight
+    r is Ok ==> final(writer).n@ == old(writer).n@ + session_privs_listed(*outbound),
+//@mutant keys_of_fulfilled_payments_written_but_not_announced
+    PendingOutboundPayment::Fulfilled { .. } => {},
+//@with
+    PendingOutboundPayment::Fulfilled { session_privs, .. } => { for session_priv in session_privs.iter() { session_priv.write(writer)?; } },
 //@end
 }
 fn main() {}
